@@ -275,8 +275,43 @@ def executed_sequence(obs):
     return logged, reported
 
 
+FAULT_LIST = ["pixee:python/secure-random", "pixee:python/use-generator", "pixee:python/use-set-literal", "pixee:python/fix-assert-tuple"]
+
+
+def e2e_fault_eval(arg):
+    """One of the requested codemods raises while it is applied.  The run may abort (nothing to judge); if it completes, every
+    requested codemod still ran once, in order - the one that raised included - and the report lists what ran."""
+    _, failing = arg
+    job = e2e_job(FAULT_LIST, None, "fix")
+    job.files = {"app.py": b"import random\nr = random.random()\ns = set([1])\nt = sum([x for x in range(3)])\nassert (1, 'm')\n"}
+    job.pre_hook, job.pre_hook_arg = "cmverif.faults:install_codemod_fault", {"codemod": FAULT_LIST[failing]}
+    obs = drive.run_inproc(job)
+    if obs.error:
+        raise core.HarnessError(obs.error)
+    rp = {"e2e_fault": failing}
+    if not obs.extra.get("faults_fired"):
+        raise core.HarnessError("codemod-level fault was not delivered")
+    if obs.exit != 0:
+        return [], None  # aborted run
+    logged, reported = executed_sequence(obs)
+    viols = []
+    if logged != FAULT_LIST:
+        viols.append((f"fault:codemod-raises:{failing}|executed-sequence", f"{FAULT_LIST[failing]} raised; the run completed with exit 0 but executed {logged}, requested {FAULT_LIST}", rp))
+    ok_reports = (FAULT_LIST, [c for c in FAULT_LIST if c != FAULT_LIST[failing]])
+    if reported is not None and reported not in ok_reports:
+        viols.append((f"fault:codemod-raises:{failing}|report-vs-executed", f"report lists {reported}, executed {logged}", rp))
+    if reported is not None:
+        changed = {r["codemod"] for r in obs.report["results"] if r["changeset"]}
+        want = {c for c in FAULT_LIST if c != FAULT_LIST[failing]}
+        if reported in ok_reports and not want <= changed:
+            viols.append((f"fault:codemod-raises:{failing}|codemod-listed-but-did-not-run", f"codemods {sorted(want - changed)} have work in app.py and are listed, but changed nothing", rp))
+    return viols, {"fault": FAULT_LIST[failing], "executed": logged}
+
+
 def e2e_eval(arg):
     include, exclude, mode = arg
+    if include == "FAULT":
+        return e2e_fault_eval(arg[1:])
     import codemodder.registry as reg
 
     ids = list(reg.load_registered_codemods().ids)
@@ -372,16 +407,16 @@ def explore(tier, seed):
     for (kind, spec, _), r in zip(shards, res):
         for sig, what, rp, dev in r[2]:
             violations.append(Violation(PROP, sig, what, rp, dev))
-    cfgs = drive.seed_rotate(e2e_configs(tier), seed)
+    cfgs = drive.seed_rotate(e2e_configs(tier) + [("FAULT", None, k) for k in range(len(FAULT_LIST))], seed)
     eres = drive.pmap("cmverif.checks.c17:e2e_eval", cfgs)
     for (inc, exc, mode), (vs, smp) in zip(cfgs, eres):
         for sig, what, rp in vs:
-            violations.append(Violation(PROP, sig, what, rp, len(inc or exc or [])))
+            violations.append(Violation(PROP, sig, what, rp, 1 if inc == "FAULT" else len(inc or exc or [])))
         if smp and len(samples) < 5:
             samples.append(smp)
     # conformance of the in-process driver with the real console entry point
     conf = 0
-    for cfg in [c for c in cfgs if c[0] and len(c[0]) == 2][:3]:
+    for cfg in [c for c in cfgs if c[0] and c[0] != "FAULT" and len(c[0]) == 2][:3]:
         a = drive.run_inproc(e2e_job(*cfg))
         b = drive.run_cli(e2e_job(*cfg))
         la, ra = executed_sequence(a)
@@ -421,6 +456,9 @@ def explore(tier, seed):
 
 def replay(rp):
     drive.init_inproc()
+    if "e2e_fault" in rp:
+        vs, _ = e2e_fault_eval((None, rp["e2e_fault"]))
+        return (not vs), "\n".join(v[1] for v in vs) or "every requested codemod ran once, in order"
     if rp.get("e2e"):
         import codemodder.registry as reg
 
